@@ -17,6 +17,7 @@ package main
 //           kind c = command, i = raft-internal (LogNoop), m = command already tagged MessageOfDeath
 //           payload spec: "C" CreateSession | "D<sid> <quitmsg>" | "I<sid> <irc line>" | "G<duration>"
 //                         | "P<sid> PANIC" (like I; the generator predicts that the handler panics)
+//                         | "J{json}" generic: {"T":"C|D|M|F","S":sid,"C":cmid,"Rev":n,"D":hex,"Ra":hex,"Auth":hex,"Toml":hex}
 //   step  = A | S<t>:ok | S<t>:fail<k> | R | X | Q<tok.tok...>   (tok = idx or idx! (applied as MoD))
 // <variant> is only read by the model.  Output ($VERIF_OUT), one line per case, see vfDump.
 
@@ -135,6 +136,44 @@ func vfParseEntry(tok string, useProto bool) (*vfEntry, error) {
 		m.Type = robust.Config
 		m.Data = "SessionExpiration = \"" + rest + "\"\nPostMessageCooloff = \"0s\"\n"
 		m.Revision = idx
+	case strings.HasPrefix(e.spec, "J"):
+		// generic form (histories of harness/py/irclib.py): every byte field hex-encoded
+		var j struct {
+			T                 string
+			S, C, Rev         uint64
+			D, Ra, Auth, Toml string
+		}
+		if err := json.Unmarshal([]byte(rest), &j); err != nil {
+			return nil, err
+		}
+		unhex := func(h string) string {
+			b, err := hex.DecodeString(h)
+			if err != nil {
+				panic("verif: bad hex in J spec")
+			}
+			return string(b)
+		}
+		switch j.T {
+		case "C":
+			m.Type = robust.CreateSession
+			m.Data = unhex(j.Auth)
+		case "D":
+			m.Type = robust.DeleteSession
+			m.Session = robust.Id{Id: j.S}
+			m.Data = unhex(j.D)
+		case "M":
+			m.Type = robust.IRCFromClient
+			m.Session = robust.Id{Id: j.S}
+			m.Data = unhex(j.D)
+			m.ClientMessageId = j.C
+			m.RemoteAddr = unhex(j.Ra)
+		case "F":
+			m.Type = robust.Config
+			m.Data = unhex(j.Toml)
+			m.Revision = j.Rev
+		default:
+			return nil, fmt.Errorf("bad J spec type %q", j.T)
+		}
 	default:
 		return nil, fmt.Errorf("bad payload spec %q", e.spec)
 	}
@@ -181,13 +220,58 @@ func vfStateDigest(b []byte) (string, uint64) {
 	return vfShort(out), lii
 }
 
-func vfServerDigest(i *ircserver.IRCServer) string {
+func vfMarshalDigest(i *ircserver.IRCServer) string {
 	b, err := i.Marshal(0)
 	if err != nil {
 		return "marshal-error"
 	}
 	d, _ := vfStateDigest(b)
 	return d
+}
+
+// vfDumpParts: the independent field dump of internal/ircserver (VerifDump, injected by overlay:
+// harness/go/ircserver/zz_verif_export.go, format harness/IRCFORMAT.md), split into everything but
+// Config.WhitelistedOrigins and that one field (absent from snapshot.proto: C03's open finding).
+func vfDumpParts(i *ircserver.IRCServer) (string, string) {
+	d := ircserver.VerifDump(i)
+	wo := ""
+	if k := strings.LastIndex(d, "/wo="); k >= 0 {
+		end := strings.IndexAny(d[k+1:], ";/")
+		if end < 0 {
+			wo, d = d[k+4:], d[:k]
+		} else {
+			wo, d = d[k+4:k+1+end], d[:k]+d[k+1+end:]
+		}
+	}
+	return d, wo
+}
+
+var vfFullDumps = os.Getenv("VERIF_FSM_DUMPS") == "1"
+
+// vfServerDigest is the state token of a live server: <digest of canonicalised Marshal>.<digest of the
+// field dump without wo>.<digest of wo>.  Two servers are "the same state" iff the tokens are equal.
+func vfServerDigest(i *ircserver.IRCServer) string {
+	d, wo := vfDumpParts(i)
+	return vfMarshalDigest(i)[:10] + "." + vfShort([]byte(d))[:10] + "." + vfShort([]byte(wo))[:4]
+}
+
+// vfBytesToken is the state token of a serialized state: what it MEANS when it is loaded
+// (Unmarshal onto a fresh server, then the same token as for a live server) — a field that Marshal drops
+// or normalises shows up as a difference to the plainly replayed server.
+func vfBytesToken(b []byte) (string, uint64, *ircserver.IRCServer) {
+	_, lii := vfStateDigest(b)
+	srv := ircserver.NewIRCServer(vfNetwork, time.Unix(0, 1481144012969203276))
+	if _, err := srv.Unmarshal(b); err != nil {
+		return "load-error", lii, nil
+	}
+	return vfServerDigest(srv), lii, srv
+}
+
+func vfDumpHex(i *ircserver.IRCServer) string {
+	if i == nil {
+		return "-"
+	}
+	return hex.EncodeToString([]byte(ircserver.VerifDump(i)))
 }
 
 func vfBatchDigest(msgs []outputstream.Message) string {
@@ -254,17 +338,18 @@ type vfPersisted struct {
 // ---------------------------------------------------------------- the world
 
 type vfWorld struct {
-	dir       string
-	useProto  bool
-	fileSink  bool
-	entries   []*vfEntry
-	byIdx     map[uint64]*vfEntry
-	fsm       *FSM
-	logstore  *raftstore.LevelDBStore // only for C07
-	applied   int
-	persisted []vfPersisted
-	fss       raft.SnapshotStore
-	fssN      int
+	dir          string
+	useProto     bool
+	fileSink     bool
+	entries      []*vfEntry
+	byIdx        map[uint64]*vfEntry
+	fsm          *FSM
+	logstore     *raftstore.LevelDBStore // only for C07
+	applied      int
+	persisted    []vfPersisted
+	fss          raft.SnapshotStore
+	fssN         int
+	lastSnapDump string
 }
 
 func vfFreshBanned() {
@@ -385,7 +470,7 @@ func (w *vfWorld) describeSnapshot(b []byte) string {
 				st = "badstate"
 				return
 			}
-			d, lii := vfStateDigest(raw)
+			d, lii, _ := vfBytesToken(raw)
 			st = strconv.FormatUint(lii, 10) + "=" + d
 			return
 		}
@@ -435,8 +520,12 @@ func (w *vfWorld) snapshot(t int64, failAt int) string {
 	if !ok {
 		return "S:badtype"
 	}
-	d, lii := vfStateDigest(rs.state)
+	d, lii, loaded := vfBytesToken(rs.state)
 	head := fmt.Sprintf("S:%d:%d:%d=%s", rs.firstIndex, rs.lastIndex, lii, d)
+	w.lastSnapDump = ""
+	if vfFullDumps {
+		w.lastSnapDump = vfDumpHex(loaded)
+	}
 	var sink raft.SnapshotSink
 	var mem *vfMemSink
 	if w.fileSink {
@@ -518,9 +607,10 @@ func vfList(l []string) string {
 }
 
 // vfDump prints the observable bookkeeping:
-//   st=<FirstIndex>:<LastIndex>:<stored idx,...>  (idx~ = stored data differs from the log entry)
-//   out=<idx=batchdigest,...>   keys=<key=statedigest[@lastIncludedIndex if != key],...>
-//   exp=<effective expiration ns>  srv=<live state digest>  n=<entries passed to Apply>
+//
+//	st=<FirstIndex>:<LastIndex>:<stored idx,...>  (idx~ = stored data differs from the log entry)
+//	out=<idx=batchdigest,...>   keys=<key=statedigest[@lastIncludedIndex if != key],...>
+//	exp=<effective expiration ns>  srv=<live state digest>  n=<entries passed to Apply>
 func (w *vfWorld) dump() string {
 	first, _ := w.fsm.ircstore.FirstIndex()
 	last, _ := w.fsm.ircstore.LastIndex()
@@ -551,7 +641,7 @@ func (w *vfWorld) dump() string {
 	sort.Slice(keys, func(a, b int) bool { return keys[a] < keys[b] })
 	var ks []string
 	for _, k := range keys {
-		d, lii := vfStateDigest(w.fsm.lastSnapshotState[k])
+		d, lii, _ := vfBytesToken(w.fsm.lastSnapshotState[k])
 		tok := strconv.FormatUint(k, 10) + "=" + d
 		if lii != k {
 			tok += "@" + strconv.FormatUint(lii, 10)
@@ -562,8 +652,16 @@ func (w *vfWorld) dump() string {
 	if exp == 0 {
 		exp = 10 * time.Minute
 	}
-	return fmt.Sprintf("st=%d:%d:%s out=%s keys=%s exp=%d srv=%s n=%d", first, last, vfList(stored), vfList(outs),
-		vfList(ks), int64(exp), vfServerDigest(ircServer), w.applied)
+	extra := ""
+	if vfFullDumps {
+		extra = " dsrv=" + vfDumpHex(ircServer)
+		if w.lastSnapDump != "" {
+			extra += " dsnap=" + w.lastSnapDump
+			w.lastSnapDump = ""
+		}
+	}
+	return fmt.Sprintf("st=%d:%d:%s out=%s keys=%s exp=%d srv=%s n=%d%s", first, last, vfList(stored), vfList(outs),
+		vfList(ks), int64(exp), vfServerDigest(ircServer), w.applied, extra)
 }
 
 // ---------------------------------------------------------------- model-independent replay
@@ -571,6 +669,8 @@ func (w *vfWorld) dump() string {
 // vfReplay applies the given (entry, asMoD) sequence to a fresh server through applyRobustMessage on a
 // zero FSM with a private output stream; returns per element the state digest after it and the digest
 // of its output batch ("-" if none).
+var vfLastReplayDumps []string
+
 type vfTok struct {
 	e     *vfEntry
 	asMoD bool
@@ -590,10 +690,17 @@ func vfReplay(dir string, toks []vfTok) (states []string, outs []string, srv *ir
 	defer o.Close()
 	pf := &FSM{}
 	seen := map[uint64]bool{}
+	vfLastReplayDumps = nil
+	if vfFullDumps {
+		vfLastReplayDumps = append(vfLastReplayDumps, vfDumpHex(srv))
+	}
 	for _, t := range toks {
 		if t.e.kind == 'i' {
 			states = append(states, vfServerDigest(srv))
 			outs = append(outs, "-")
+			if vfFullDumps {
+				vfLastReplayDumps = append(vfLastReplayDumps, vfDumpHex(srv))
+			}
 			continue
 		}
 		if seen[t.e.idx] {
@@ -607,6 +714,9 @@ func vfReplay(dir string, toks []vfTok) (states []string, outs []string, srv *ir
 			m.Type = robust.MessageOfDeath
 		}
 		pf.applyRobustMessage(&m, srv, o)
+		if vfFullDumps {
+			vfLastReplayDumps = append(vfLastReplayDumps, vfDumpHex(srv))
+		}
 		states = append(states, vfServerDigest(srv))
 		if msgs, ok := o.Get(robust.Id{Id: t.e.idx}); ok {
 			outs = append(outs, vfBatchDigest(msgs))
@@ -740,6 +850,13 @@ func vfRunCase(line string, base string, n int) (res string) {
 			pl = append(pl, fmt.Sprintf("%d=%s=%s", e.idx, states[k], outs[k]))
 		}
 		out = append(out, "plain "+vfList(pl))
+		if vfFullDumps && len(vfLastReplayDumps) == len(entries)+1 {
+			pd := []string{"0=" + vfLastReplayDumps[0]}
+			for k, e := range entries {
+				pd = append(pd, fmt.Sprintf("%d=%s", e.idx, vfLastReplayDumps[k+1]))
+			}
+			out = append(out, "pdumps "+vfList(pd))
+		}
 	}
 	if len(queries) > 0 {
 		var qs []string
